@@ -134,7 +134,14 @@ pub const VARS: &[&str] = &["x", "y", "z", "k"];
 fn sources(r: &mut Rng) -> T {
     let x = || id("x");
     let cased = || T::Map(["id", "ID", "Id", "iD", "key"].iter().enumerate().map(|(i, k)| (lit(V::Str(k.to_string())), lit(V::Int(i as i64)))).collect());
-    match r.below(17) {
+    match r.below(21) {
+        // a comparison of maps in which one entry differs and another one fails (y = 0): one outcome, whatever the hash state
+        17 => bin("==", T::Map(vec![(lit(V::Str("a".into())), x()), (lit(V::Str("b".into())), bin("/", lit(V::Int(10)), id("y"))), (lit(V::Str("c".into())), lit(V::Int(1)))]),
+                  T::Map(vec![(lit(V::Str("a".into())), lit(V::Int(2))), (lit(V::Str("b".into())), bin("/", lit(V::Int(10)), id("y"))), (lit(V::Str("c".into())), lit(V::Int(1)))])),
+        // regular expressions, well formed and not
+        18 => mcall(lit(V::Str("abab".into())), "matches", vec![lit(V::Str("a(b)".into()))]),
+        19 => mcall(lit(V::Str("abab".into())), "matches", vec![lit(V::Str("a(b".into()))]),
+        20 => mcall(lit(V::Str("abab".into())), "matches", vec![id("k")]),
         14 => mcall(cased(), "map", vec![id("e"), id("e")]),                   // one fixed order, also for keys that differ in case only
         15 => mcall(cased(), "filter", vec![id("e"), bin("!=", id("e"), lit(V::Str("key".into())))]),
         16 => mcall(id("k"), "map", vec![id("e"), id("e")]),
@@ -226,6 +233,22 @@ pub fn random_history(r: &mut Rng, len: usize, first_ctx: u64, first_bind: u64) 
 /// binding objects, every pairing executed more than once.  All executions have equal inputs.
 pub fn probe_history(which: usize) -> Vec<J> {
     let cased = || T::Map(["id", "ID", "Id", "iD", "key"].iter().enumerate().map(|(i, k)| (lit(V::Str(k.to_string())), lit(V::Int(i as i64)))).collect());
+    if which % 8 >= 4 {
+        // state that must not survive from one execution to the next on a thread: a well-formed pattern, a malformed one,
+        // the malformed one again; a comparison of maps with a differing and a failing entry, repeated
+        let pats = [("p", "a(b)"), ("q", "a(b"), ("r", "[a-"), ("s", "b+")];
+        let mut steps = vec![json!({"a":"NewCtx","c":1}), json!({"a":"NewBind","b":2}), json!({"a":"BindParam","b":2,"n":"y","v":V::Int(0).to_json()}), json!({"a":"BindParam","b":2,"n":"x","v":V::Int(1).to_json()})];
+        for (n, p) in pats {
+            steps.push(json!({"a":"AddProgram","c":1,"n":n,"tree":mcall(lit(V::Str("abab".into())), "matches", vec![lit(V::Str(p.into()))]).to_json()}));
+        }
+        let meq = bin("==", T::Map(vec![(lit(V::Str("a".into())), id("x")), (lit(V::Str("b".into())), bin("/", lit(V::Int(10)), id("y"))), (lit(V::Str("c".into())), lit(V::Int(1))), (lit(V::Str("d".into())), lit(V::Int(1)))]),
+                      T::Map(vec![(lit(V::Str("a".into())), lit(V::Int(2))), (lit(V::Str("b".into())), bin("/", lit(V::Int(10)), id("y"))), (lit(V::Str("c".into())), lit(V::Int(1))), (lit(V::Str("d".into())), lit(V::Int(1)))]));
+        steps.push(json!({"a":"AddProgram","c":1,"n":"t","tree":meq.to_json()}));
+        for n in ["p", "q", "q", "r", "s", "r", "q", "p", "t", "t", "t", "t", "t", "t"] {
+            steps.push(json!({"a":"Exec","c":1,"b":2,"n":n}));
+        }
+        return steps;
+    }
     let src = match which % 4 {
         0 => mcall(cased(), "map", vec![id("e"), id("e")]),
         1 => mcall(cased(), "filter", vec![id("e"), bin("!=", id("e"), lit(V::Str("key".into())))]),
